@@ -39,11 +39,24 @@ def _unwrap_once(sub):
     i = 0
     while i < len(data):
         op, av = data[i]
+        if op is sre_c.SUBPATTERN and av[0] is None and not av[1] and not av[2]:
+            # a non-capturing group without flags is its contents
+            inner = list(av[3].data if hasattr(av[3], "data") else av[3])
+            if not any(o_ is sre_c.BRANCH for o_, _a in inner):
+                data[i:i + 1] = inner
+                continue
         if op in (sre_c.MAX_REPEAT, sre_c.MIN_REPEAT, getattr(sre_c, "POSSESSIVE_REPEAT", None)) and op is not None:
             _unwrap_once(av[2])
             if av[0] == 1 and av[1] == 1:
                 inner = list(av[2].data if hasattr(av[2], "data") else av[2])
                 data[i:i + 1] = inner
+                continue
+            body = list(av[2].data if hasattr(av[2], "data") else av[2])
+            if op is sre_c.MAX_REPEAT and av[1] is sre_c.MAXREPEAT and len(body) == 1 and i > 0 and data[i - 1] == body[0] \
+                    and body[0][0] in (sre_c.LITERAL, sre_c.NOT_LITERAL, sre_c.ANY, sre_c.IN, sre_c.CATEGORY):
+                # `X X*` (one X, then any number more) is `X+`
+                data[i - 1:i + 1] = [(sre_c.MAX_REPEAT, (av[0] + 1, av[1], av[2]))]
+                i -= 1
                 continue
         elif op is sre_c.SUBPATTERN:
             _unwrap_once(av[3])
